@@ -95,12 +95,50 @@ def has_meta(s):
     return any(c in s for c in META)
 
 
+EVIL_KEYS = ["<k>", "it's", 'q"', "a&b", "</p>", "'\"><"]       # no '=' / ',' (proggen's kind strings), never looked up by name
+
+
+def evil_nested(rng, v):
+    """the same shape with metacharacter strings in place of (some of) the strings, at any depth"""
+    if isinstance(v, str):
+        return rng.choice(EVIL) if rng.chance(2, 3) else v
+    if isinstance(v, list):
+        return [evil_nested(rng, x) for x in v]
+    if isinstance(v, dict):
+        return {k: evil_nested(rng, x) for k, x in v.items()}
+    return v
+
+
+def map_has_meta(v, inside=False):
+    if isinstance(v, str):
+        return inside and has_meta(v)
+    if isinstance(v, list):
+        return any(map_has_meta(x, inside) for x in v)
+    if isinstance(v, dict):
+        return any(map_has_meta(k, True) or map_has_meta(x, True) for k, x in v.items())
+    return False
+
+
+NEW_CONSTRUCTS = [("map_literal", re.compile(r'\{(?:"[a-z]+"|\d+): |\{\}')), ("map_lookup", re.compile(r'\b[de](?:\.[a-z]+\b|\[")')),
+                  ("loop_over_map", re.compile(r'\{% for k\d+(?:, x\d+)? in ')), ("items_filter", re.compile(r'\|items\b')),
+                  ("unpacking_set", re.compile(r'\{% set \w+, \w+ = ')), ("unpacking_with", re.compile(r'\{% with \(\w+, \w+\) = ')),
+                  ("mapping_test", re.compile(r' is (?:not )?mapping\b'))]
+
+
 def evil_context(rng, wild=False):
     ctx, kinds = proggen.default_context(rng)
     ctx["s"] = rng.choice(EVIL)
     ctx["h"] = rng.choice(EVIL) + rng.choice(["", " ", "x"]) + rng.choice(EVIL)
     ctx["q"] = rng.choice(EVIL)
     kinds.update({"h": "str", "q": "str"})
+    # maps: metacharacter strings as values under the typed keys (the kinds stay as they are), nested inside the
+    # second map, and under a key that is itself a metacharacter string (not listed in the kinds: such a key is
+    # never written as `d.<k>`, it shows up when the whole map is printed, iterated over, unpacked, `|items`, `|list`)
+    if "b" in ctx["d"] and rng.chance(2, 3):
+        ctx["d"]["b"] = rng.choice(EVIL)
+    if rng.chance(1, 2):
+        ctx["d"][rng.choice(EVIL_KEYS)] = rng.choice(EVIL + [[rng.choice(EVIL), 1]])
+    ctx["e"] = evil_nested(rng, ctx["e"])
     if wild:
         ctx["n"] = rng.choice(EVIL)
         ctx["l"] = [rng.choice(EVIL) for _ in range(rng.below(4))]
@@ -319,6 +357,15 @@ def main():
                             hist["A_uses_" + fn] += 1
                     if re.search(r"{% for c\d+ in ", src_i):
                         hist["A_loops_over_a_string"] += 1
+                    for lab, rx in NEW_CONSTRUCTS:
+                        if rx.search(src_i):
+                            hist["A_uses_" + lab] += 1
+                    if map_has_meta(progs[i][1]):
+                        hist["A_context_map_holds_metachar_string"] += 1
+                    if re.search(r"\{(?:&#x27;|&quot;)", out):
+                        hist["A_output_prints_a_map_with_string_keys"] += 1
+                    if re.search(r"(?:\[|, |: )(?:&#x27;|&quot;)[^&]*&(?:lt|gt|quot|#x27);", out):
+                        hist["A_output_prints_metachar_string_nested_in_list_or_map"] += 1
                     if "&lt;" in out or "&gt;" in out or "&quot;" in out or "&#x27;" in out:
                         hist["A_output_has_escaped_metachar"] += 1
                         nontriv.add(("A", reqs[i]["templates"][progs[i][2]], json.dumps(progs[i][1], sort_keys=True)))
